@@ -144,6 +144,10 @@ def indexing_batch2(S, kernel):
             with gpytorch.settings.lazily_evaluate_kernels(False):
                 D11 = as_sym_arr(SH.get(dense(k(x1, x1)))).copy()
             S.prove_eq(dg, np.diagonal(D11, axis1=-2, axis2=-1), "diag=True (kernel batch 2x3)")
+            # permuting / transposing the batch dimensions of the lazy tensor = permuting the dense tensor
+            for perm in ((1, 0, 2, 3),):  # (LinearOperator.permute is documented for batch dimensions only)
+                got = S.must_not_raise("lazy.permute%s" % (perm,), lambda: dense(k(x1, x2).permute(*perm)))
+                S.prove_eq(got, np.transpose(D, perm), "lazy.permute%s = dense permute (kernel batch 2x3)" % (perm,))
 
 
 def views(S, kernel, n, d):
